@@ -127,7 +127,7 @@ def run(ctx):
     tf(ctx)
     rep.floor('G3', 6)
     rep.floor('G2', 8)
-    rep.floor('G1', 6)
+    rep.floor('G1', 7)
 
 
 def run1(ctx, unit, fname, sname, argn, lk, pre=''):
@@ -354,7 +354,7 @@ def tf(ctx):
         except Unsupported as e:
             rep.unk('G1', 'a_real_push_fore', str(e))
     # ---- zero / setters zero exactly num_n / den_n cells
-    for fname, argn in (('a_tf_zero', []), ('a_tf_set_num', None), ('a_tf_set_den', None)):
+    for fname, argn in (('a_tf_zero', []), ('a_tf_set_num', None), ('a_tf_set_den', None), ('a_tf_init', None)):
         fn = ctx.fn('tf', fname)
         if fn is None:
             rep.unk('G1', fname, 'anchor vanished')
@@ -366,6 +366,10 @@ def tf(ctx):
             if fname == 'a_tf_zero':
                 args = [Ptr('ctx', 0)]
                 want = [('*input', dom.sym('num_n', real=True)), ('*output', dom.sym('den_n', real=True))]
+            elif fname == 'a_tf_init':
+                nn, dn = dom.sym('n', integer=True, nonnegative=True), dom.sym('m', integer=True, nonnegative=True)
+                args = [Ptr('ctx', 0), nn, Ptr('coef', 0), Ptr('line', 0), dn, Ptr('coef2', 0), Ptr('line2', 0)]
+                want = [('line', nn), ('line2', dn)]
             else:
                 nn = dom.sym('n', integer=True, nonnegative=True)
                 args = [Ptr('ctx', 0), nn, Ptr('coef', 0), Ptr('line', 0)]
@@ -374,6 +378,29 @@ def tf(ctx):
             lv = it.run(fn, args)
             if len(lv) != 1:
                 raise Unsupported('%d paths' % len(lv))
+            # the fields the setter is responsible for, and only those
+            if fname != 'a_tf_zero':
+                byname = {v_: k_ for k_, v_ in names.items()}
+                exp = {}
+                if fname in ('a_tf_set_num', 'a_tf_init'):
+                    exp.update({'num_n': nn, 'num_p': Ptr('coef', 0), 'input': Ptr('line', 0)})
+                if fname == 'a_tf_set_den':
+                    exp.update({'den_n': nn, 'den_p': Ptr('coef', 0), 'output': Ptr('line', 0)})
+                if fname == 'a_tf_init':
+                    exp.update({'den_n': dn, 'den_p': Ptr('coef2', 0), 'output': Ptr('line2', 0)})
+                fprobs = []
+                for fld_, wv in exp.items():
+                    got_ = lv[0].store.get(byname.get(fld_))
+                    gv = got_[0] if got_ else None
+                    same = (isinstance(wv, Ptr) and isinstance(gv, Ptr) and gv == wv) or (not isinstance(wv, Ptr) and gv is not None and not isinstance(gv, Ptr) and alg.is_zero(sp.sympify(gv) - wv))
+                    if not same:
+                        fprobs.append('%s = %s, expected %s' % (fld_, gv, wv))
+                for k_, v_ in lv[0].store.items():
+                    if k_[0] == 'ctx' and names.get(k_) not in exp:
+                        fprobs.append('also writes %s' % names.get(k_, k_))
+                if fprobs:
+                    rep.bad('G1', fname, '; '.join(sorted(set(fprobs))[:3]), loc=loc, key='%s: fields' % fname)
+                    continue
             z = [c for c in lv[0].calls if c[0] == 'a_zero' or c[0].startswith('llvm.memset')]
             got = []
             for c in z:
